@@ -8,7 +8,10 @@ mod pp;
 mod prng;
 mod realrun;
 mod refint;
+mod reflex;
+mod refparse;
 mod scope;
+mod xmlgen;
 
 use serde_json::json;
 use std::collections::HashMap;
@@ -77,6 +80,7 @@ fn main() {
             let t0 = Instant::now();
             let mut acc = acc::Acc {
                 verbose: a.contains_key("verbose"),
+                thorough: tier == "thorough",
                 ..Default::default()
             };
             let mut extra = json!(null);
@@ -112,6 +116,13 @@ fn main() {
                 }
                 std::fs::write(hf, bytes).expect("write hashes");
             }
+            if !acc.digests.is_empty() {
+                let mut t = String::new();
+                for (c, d) in &acc.digests {
+                    t.push_str(&format!("{c} {d}\n"));
+                }
+                std::fs::write(format!("{out}.digests"), t).expect("write digests");
+            }
             let rep = json!({
                 "prop": prop, "tier": tier, "seed": seed, "shard": shard, "nshards": nshards,
                 "profile": build_profile(), "time_capped": capped, "wall_s": t0.elapsed().as_secs_f64(),
@@ -126,6 +137,7 @@ fn main() {
             let prop = a["prop"].clone();
             let mut acc = acc::Acc {
                 verbose: true,
+                thorough: a.get("tier").map(|t| t == "thorough").unwrap_or(false),
                 ..Default::default()
             };
             let variant = a.get("variant").cloned().unwrap_or("gen".into());
